@@ -15,15 +15,18 @@ from checks import _valcommon as vc
 from checks import _valgen as vg
 
 MANIFEST = dict(
-    technique="Coq: structural induction on schema trees (iter_errors empty iff Draft-4 conforms), path lemmas for create_message, idempotence of lower-casing; extracted-model correspondence with fault injection; independent Draft-4 oracle in Python",
-    text=("Coq theorems (Props/C07.v) over Model/Schema.v (jsonschema Draft4Validator.iter_errors on the keyword census, with error paths, over the $ref-expanded tree) and Model/Validator.v: "
-          "iter_errors_complete (for every well-formed schema tree and every instance: no errors iff Spec/Draft4.conforms, by induction on the schema; $ref handled by expansion, whose leftovers make the schema ill-formed); "
-          "validate_verdict (validate returns [] iff the lower-cased JSON form conforms); messages_cover (every error yields a message naming the last key of its path, or the __type__ of the object it points to, for paths of any depth); "
-          "validate_never_raises REFUTED (MAP SIZE 10.5 20: error path ['size', 0] -> TypeError) with the guarded version (no raise when every error path that ends in a list index points to an object); "
-          "verdict_case_insensitive (convert_lowercase idempotent, verdict invariant under case changes of keys and string values); hidden_keys_admitted (every schema file with properties admits ^__[a-z]+__$ keys, reflection over the generated files); "
-          "list_is_pointwise. Tie to validator.py/jsonschema/jsonref: extracted model vs real validate on generated valid documents, single and double faults of six kinds at every depth and list index, and the shipped corpus."),
+    technique="Coq: induction on schema trees (iter_errors empty iff Draft-4 conforms), path lemmas for create_message, idempotence of lower-casing, reflection over the generated schema files; extracted-model correspondence with fault injection; independent Draft-4 oracle in Python",
+    text=("Coq theorems (Props/C07.v, 12, all closed) over Model/Schema.v (jsonschema Draft4Validator.iter_errors on the keyword census, with error paths and validator keywords, over the $ref-expanded tree) and Model/Validator.v: "
+          "C07_iter_errors_complete [U] (for every well-formed schema tree and every instance: no errors iff Spec/Draft4.conforms; induction on the schema, all 19 keywords) and C07_iter_errors_complete_refs (with $ref: the proxy view equals the specification's inlining); "
+          "C07_shipped_schemas_wf [F]; C07_validate_verdict [U] (validate returns [] iff the lower-cased JSON form conforms); "
+          "C07_messages_cover [U] (one message per error, in order, naming the last key of its path or the __type__ of the object it points to, any depth) and C07_errors_are_located [U] (violating keyword values / list elements / unknown / missing keywords are reported at the right place); "
+          "C07_validate_never_raises_refuted [R] (MAP SIZE 10.5 20 END: error path ['size', 0] -> TypeError) with C07_validate_never_raises_guarded_partial [U] (no raise when every error is about a dictionary - no path ending in a list index below a non-object - that names itself and carries no position record; "
+          "that loads/create dictionaries meet this guard, and the case with positions, are covered by O-val and the hunter only); "
+          "C07_convert_lowercase_idempotent and C07_verdict_case_insensitive [U]; C07_hidden_keys_admitted [F]+[U]; C07_list_is_pointwise [U]. "
+          "Tie to validator.py/jsonschema/jsonref/re: extracted model vs real validate (ordered messages: path, validator keyword, mappyfile message, line/column, exception class) on generated valid documents of every block type, "
+          "single and double faults of six kinds at depth 0-5 and list indices, corpus files with and without positions, lists of dictionaries; every schema regex vs re.search."),
     design_ref="DESIGN.md 7/C07",
-    note="C07: jsonschema 4.26 iter_errors, jsonref and re.search are modelled (tied by O-val/O-rx); jsonschema's message text is not modelled (paths, validator keyword and mappyfile's own message are); add_comments=True not modelled; U+03A3 excluded from str.lower.")
+    note="C07: jsonschema 4.26 iter_errors, jsonref and re.search are modelled (tied by O-val/O-rx); jsonschema's message text is not modelled (paths, validator keyword and mappyfile's own message are); add_comments=True not modelled; U+03A3 excluded from str.lower; tuples holding strings (not produced by loads) are outside the model. DESIGN's [F] faults_detected (fault product through the full model in the kernel) is not built; the fault product is explored by O-val and the hunter.")
 
 COMPONENTS = ["validator"]
 TARGETS = []
